@@ -11,11 +11,11 @@ import (
 
 // H_C13: transport loss is reported and releases goroutines and the socket.
 // cause: 0 read error / peer close frame, 1 write error at the k-th write, 2 local close without reason,
-// 3 local close with reason; concurrent traffic: up to `frames` incoming frames and `writes` outgoing messages.
+// 3 local close with reason (its close frame may fail to be written), 4 a ping whose write fails; concurrent traffic: up to `frames` incoming frames and `writes` outgoing messages.
 func c13(frames, writes int) {
 	e := newWsEnv(zzvrt.Bool("processor.closes"))
 	w := e.w
-	cause := zzvrt.Choice("cause", 4)
+	cause := zzvrt.Choice("cause", 5)
 	if cause == 1 {
 		e.failWrite = zzvrt.Int("env.failWrite", 1, writes)
 	}
@@ -23,6 +23,13 @@ func c13(frames, writes int) {
 		// the close frame of the deliberate local close can not be written (transport already broken for writing,
 		// or a stale write deadline): still a local close - nothing is reported, everything is released
 		e.failCtl = zzvrt.Bool("env.failCloseFrame")
+	}
+	if cause == 4 {
+		// the ping period elapses once and the PING frame can not be written: a transport failure like any other.
+		// (releasing the pumps after a failed ping relies on the SHIP layer closing the data connection when it is told
+		// about the error, as ShipConnection.ReportConnectionError does)
+		zzvrt.Assume(e.loopBack)
+		e.failCtl = true
 	}
 	nIn := zzvrt.Choice("frames.in", frames+1)
 	wdone := 0
@@ -48,8 +55,15 @@ func c13(frames, writes int) {
 		go func() { w.CloseDataConnection(4500, "bye") }()
 	}
 	zzvrt.WaitQuiescent()
+	if cause == 4 {
+		zzvrt.FireTickers()
+		zzvrt.WaitQuiescent()
+	}
 	closed, cerr := w.IsDataConnectionClosed()
 	switch cause {
+	case 4:
+		zzvrt.Assert(e.reports >= 1, "C13.ping-write-error-not-reported")
+		zzvrt.Assert(closed && cerr != nil, "C13.closed-query-after-transport-loss")
 	case 0:
 		zzvrt.Assert(e.reports >= 1, "C13.read-error-not-reported")
 		zzvrt.Assert(closed && cerr != nil, "C13.closed-query-after-transport-loss")
